@@ -105,11 +105,21 @@ def line_json(line):
 
 
 def gen_valid(g, cfg, tries=30):
+    """a valid abstract line; positional uses are placed anywhere a free value is not taken by the argument before it
+    (a multi-value argument, or an optional-mode argument used without value)."""
     for _ in range(tries):
         line = g.valid_line(cfg)
         if line is not None:
             args = cfg["args"]
-            return [u for u in line if args[u[0] - 1]["pos"]] + [u for u in line if not args[u[0] - 1]["pos"]]
+            keyed = [u for u in line if not args[u[0] - 1]["pos"]]
+            for u in [u for u in line if args[u[0] - 1]["pos"]]:
+                ok = [k for k in range(len(keyed) + 1)
+                      if k == 0 or not (args[keyed[k - 1][0] - 1]["multi"] or (args[keyed[k - 1][0] - 1]["vm"] == "opt" and not keyed[k - 1][1])
+                                        or args[keyed[k - 1][0] - 1]["pos"])]
+                # requiring arguments must stay in front of the arguments they require: positional ones have no constraints
+                k = g.r.choice(ok)
+                keyed.insert(k, u)
+            return keyed
     return None
 
 
